@@ -149,6 +149,11 @@ def check_c02(run: Run) -> None:
         st, e = run.stage_error
         if st == 'logical':
             run.v('C02', 'bracketing', e.kind, str(e))
+        if st == 'physical' and run.lr_events:
+            # the records handed to the writer cannot be reassembled from a file whose visible records / segments cannot even
+            # be delimited: nothing is "lossless, ordered and correctly bracketed" there
+            run.v('C02', 'not-reassemblable', 'not-reassemblable:' + e.kind,
+                  f'{len(run.lr_events)} records were handed to the writer; the file cannot be split into segments: {e}')
         if st in ('physical', 'logical'):
             return
     recs = run.records
